@@ -69,6 +69,7 @@ struct Mod {
     m: Module,
     types: Track<walrus::TypeId>,
     type_keys: Vec<TypeKey>,
+    type_names: Vec<Option<String>>,
     funcs: Track<walrus::FunctionId>,
     func_local: Vec<bool>,
     globals: Track<walrus::GlobalId>,
@@ -118,6 +119,7 @@ impl Mod {
             m: Module::default(),
             types: Track::default(),
             type_keys: Vec::new(),
+            type_names: Vec::new(),
             funcs: Track::default(),
             func_local: Vec::new(),
             globals: Track::default(),
@@ -166,6 +168,17 @@ impl Mod {
                 if let Err(e) = self.types.add(id, fp) {
                     return fail("id_never_reused", format!("types: {}", e));
                 }
+                // user-visible (non-entry) types get a debug name; some share one on purpose
+                let name = if key.entry {
+                    None
+                } else {
+                    let k = self.types.ids.len();
+                    Some(if k % 4 == 3 { "dupty".to_string() } else { format!("ty{}", k) })
+                };
+                if let Some(n) = &name {
+                    self.m.types.get_mut(id).name = Some(n.clone());
+                }
+                self.type_names.push(name);
                 self.type_keys.push(key);
                 Ok(())
             }
@@ -361,17 +374,18 @@ fn add_op(md: &mut Mod, coll: CollKind, arg: u32, counters: &mut Vec<(String, u6
         CollKind::Funcs => {
             let sig = (arg / 3) as usize % SIG_POOL.len();
             let (p, r) = SIG_POOL[sig];
-            let name = format!("fn{}", k);
+            let name = if arg % 7 == 6 { "dupfn".to_string() } else { format!("fn{}", k) };
             if arg % 3 == 0 {
                 let ty = md.m.types.add(p, r);
                 md.note_type(TypeKey { sig, entry: false }, ty, counters)?;
-                let (f, imp) = md.m.add_import_func("env", &format!("imp{}", k), ty);
+                let impname = if arg % 5 == 0 { "dupimp".to_string() } else { format!("imp{}", k) };
+                let (f, imp) = md.m.add_import_func("env", &impname, ty);
                 md.m.funcs.get_mut(f).name = Some(name.clone());
                 if let Err(e) = md.funcs.add(f, format!("{:?}", Some(&name))) {
                     return fail("id_never_reused", format!("funcs: {}", e));
                 }
                 md.func_local.push(false);
-                if let Err(e) = md.imports.add(imp, format!("env.imp{}", k)) {
+                if let Err(e) = md.imports.add(imp, format!("env.{}", impname)) {
                     return fail("id_never_reused", format!("imports: {}", e));
                 }
             } else {
@@ -461,7 +475,7 @@ fn add_op(md: &mut Mod, coll: CollKind, arg: u32, counters: &mut Vec<(String, u6
         }
         CollKind::Exports => {
             // export some live item (exports may dangle later: nothing is emitted in this check)
-            let name = format!("ex{}", k);
+            let name = if arg % 4 == 3 { "dupex".to_string() } else { format!("ex{}", k) };
             let id = if let Some(f) = md.funcs.live_ids().first() {
                 md.m.exports.add(&name, *f)
             } else if let Some(g) = md.globals.live_ids().first() {
@@ -615,6 +629,18 @@ fn find_op(md: &mut Mod, coll: CollKind, arg: u32, counters: &mut Vec<(String, u
                 return fail("finder_agrees_with_model", format!("types.find({}) = {:?}, the model says {:?}", type_fp(sig, false), got.map(|i| i.index()), want.map(|i| i.index())));
             }
             bump(counters, if got.is_some() { "find_hit:types" } else { "find_miss:types" });
+            // by_name: the first live type carrying that debug name
+            if !md.type_names.is_empty() {
+                let k = arg as usize % md.type_names.len();
+                if let Some(n) = md.type_names[k].clone() {
+                    let first = (0..md.type_names.len()).find(|j| md.types.alive[*j] && md.type_names[*j].as_deref() == Some(n.as_str()));
+                    let want = first.map(|j| md.types.ids[j]);
+                    let got = md.m.types.by_name(&n);
+                    if want != got {
+                        return fail("finder_agrees_with_model", format!("types.by_name({:?}) = {:?}, the model says {:?}", n, got.map(|i| i.index()), want.map(|i| i.index())));
+                    }
+                }
+            }
         }
         CollKind::Funcs => {
             if md.funcs.fp.is_empty() {
@@ -623,10 +649,12 @@ fn find_op(md: &mut Mod, coll: CollKind, arg: u32, counters: &mut Vec<(String, u
             let k = arg as usize % md.funcs.fp.len();
             // fingerprints are Debug of Option<&String>: Some("fnN")
             let name = md.funcs.fp[k].trim_start_matches("Some(\"").trim_end_matches("\")").to_string();
-            let want = if md.funcs.alive[k] { Some(md.funcs.ids[k]) } else { None };
+            // names may be shared: the finder returns the FIRST live function with that name
+            let first = (0..md.funcs.fp.len()).find(|j| md.funcs.alive[*j] && md.funcs.fp[*j] == md.funcs.fp[k]);
+            let want = first.map(|j| md.funcs.ids[j]);
             let got = md.m.funcs.by_name(&name);
             if want != got {
-                return fail("finder_agrees_with_model", format!("funcs.by_name({:?}) = {:?}, the model says {:?} (alive={})", name, got.map(|i| i.index()), want.map(|i| i.index()), md.funcs.alive[k]));
+                return fail("finder_agrees_with_model", format!("funcs.by_name({:?}) = {:?}, the model says {:?} (first live of that name)", name, got.map(|i| i.index()), want.map(|i| i.index())));
             }
             bump(counters, if got.is_some() { "find_hit:funcs" } else { "find_miss_after_delete:funcs" });
         }
@@ -636,15 +664,18 @@ fn find_op(md: &mut Mod, coll: CollKind, arg: u32, counters: &mut Vec<(String, u
             }
             let k = arg as usize % md.exports.fp.len();
             let name = md.exports.fp[k].clone();
+            let first = (0..md.exports.fp.len()).find(|j| md.exports.alive[*j] && md.exports.fp[*j] == name);
             if arg % 5 == 0 {
-                // remove by name: deletes exactly that live export, or reports an error and changes nothing
+                // remove by name: deletes exactly the FIRST live export of that name, or reports an error and changes nothing
                 let r = md.m.exports.remove(&name);
-                if md.exports.alive[k] != r.is_ok() {
-                    return fail("finder_agrees_with_model", format!("exports.remove({:?}) returned ok={} but the model says alive={}", name, r.is_ok(), md.exports.alive[k]));
+                if first.is_some() != r.is_ok() {
+                    return fail("finder_agrees_with_model", format!("exports.remove({:?}) returned ok={} but the model has a live export of that name: {}", name, r.is_ok(), first.is_some()));
                 }
-                md.exports.alive[k] = false;
+                if let Some(j) = first {
+                    md.exports.alive[j] = false;
+                }
             } else {
-                let live = md.exports.alive[k];
+                let live = first.is_some();
                 let got = md.m.exports.iter().any(|e| e.name == name);
                 if got != live {
                     return fail("finder_agrees_with_model", format!("export named {:?}: present={} but the model says alive={}", name, got, live));
@@ -657,7 +688,8 @@ fn find_op(md: &mut Mod, coll: CollKind, arg: u32, counters: &mut Vec<(String, u
             }
             let k = arg as usize % md.imports.fp.len();
             let (module, name) = md.imports.fp[k].split_once('.').map(|(a, b)| (a.to_string(), b.to_string())).unwrap_or_default();
-            let want = if md.imports.alive[k] { Some(md.imports.ids[k]) } else { None };
+            let first = (0..md.imports.fp.len()).find(|j| md.imports.alive[*j] && md.imports.fp[*j] == md.imports.fp[k]);
+            let want = first.map(|j| md.imports.ids[j]);
             let got = md.m.imports.find(&module, &name);
             if want != got {
                 return fail("finder_agrees_with_model", format!("imports.find({:?},{:?}) = {:?}, the model says {:?}", module, name, got.map(|i| i.index()), want.map(|i| i.index())));
@@ -677,6 +709,46 @@ fn find_op(md: &mut Mod, coll: CollKind, arg: u32, counters: &mut Vec<(String, u
             md.customs.alive[k] = false;
         }
         _ => {}
+    }
+    Ok(())
+}
+
+/// An id issued by module `a` used on module `b`: refused (panic / None), whatever `b` holds at that index.
+fn foreign_op(mods: &[Mod], a: usize, b: usize, coll: CollKind, nth: u32, counters: &mut Vec<(String, u64)>) -> R {
+    macro_rules! foreign {
+        ($track:ident, $what:expr, $get:expr) => {{
+            if mods[a].$track.ids.is_empty() {
+                return Ok(());
+            }
+            let id = mods[a].$track.ids[nth as usize % mods[a].$track.ids.len()];
+            let m = &mods[b].m;
+            match refused(|| ($get)(m, id)) {
+                Err(()) => bump(counters, concat!("foreign_id_refused:", $what)),
+                Ok(_) => return fail("foreign_id_is_refused", format!("{}.get with an id issued by another module returned normally", $what)),
+            }
+        }};
+    }
+    match coll {
+        CollKind::Types => foreign!(types, "types", |m: &Module, id| m.types.get(id).params().len()),
+        CollKind::Funcs => foreign!(funcs, "funcs", |m: &Module, id| m.funcs.get(id).name.is_some()),
+        CollKind::Globals => foreign!(globals, "globals", |m: &Module, id| m.globals.get(id).mutable),
+        CollKind::Memories => foreign!(memories, "memories", |m: &Module, id| m.memories.get(id).initial),
+        CollKind::Tables => foreign!(tables, "tables", |m: &Module, id| m.tables.get(id).initial),
+        CollKind::Data => foreign!(data, "data", |m: &Module, id| m.data.get(id).value.len()),
+        CollKind::Elements => foreign!(elements, "elements", |m: &Module, id| m.elements.get(id).name.is_some()),
+        CollKind::Exports => foreign!(exports, "exports", |m: &Module, id| m.exports.get(id).name.len()),
+        CollKind::Imports => foreign!(imports, "imports", |m: &Module, id| m.imports.get(id).name.len()),
+        CollKind::Locals => foreign!(locals, "locals", |m: &Module, id| m.locals.get(id).name.is_some()),
+        CollKind::Customs => {
+            if mods[a].customs.ids.is_empty() {
+                return Ok(());
+            }
+            let id = mods[a].customs.ids[nth as usize % mods[a].customs.ids.len()];
+            if mods[b].m.customs.get(id).is_some() {
+                return fail("foreign_id_is_refused", "customs.get with an id issued by another module returned a section".to_string());
+            }
+            bump(counters, "foreign_id_refused:customs");
+        }
     }
     Ok(())
 }
@@ -707,6 +779,13 @@ pub fn run(ops: &[COp], n_modules: u8, initial_burn: u32) -> CollReport {
                     let fty = lf.ty();
                     md.note_type(TypeKey { sig, entry: false }, fty, &mut rep.counters)?;
                     md.note_entry_type(sig, &mut rep.counters)
+                }
+                COp::Foreign { from, to, coll, nth } => {
+                    let (a, b) = (*from as usize % nm, *to as usize % nm);
+                    if a == b {
+                        return Ok(());
+                    }
+                    foreign_op(&mods, a, b, *coll, *nth, &mut rep.counters)
                 }
                 COp::Burn { n } => {
                     for _ in 0..*n {
